@@ -3,6 +3,7 @@ mod proj;
 mod util;
 mod tables;
 mod c04;
+mod laws;
 mod pipeline;
 mod rules;
 mod scan;
@@ -20,7 +21,22 @@ fn main() {
         ("replay", "C03") => scan::replay(),
         ("replay", "C05") => c05::replay(),
         ("replay", "C18") => c18::replay(),
+        ("rules", _) => {
+            // prints the text of every rule AST on stdin and how the real parser receives it
+            let t = tables::load();
+            let mut ok = 0; let mut bad = 0;
+            util::replay_stdin(|v| {
+                let text = rules::rule_text(&v["rule"], &t);
+                match asca::verif::parse_rules(&[asca::RuleGroup::from_rules(vec![text.clone()])]) {
+                    Ok(_) => { ok += 1; println!("OK   {text}"); }
+                    Err(e) => { bad += 1; println!("ERR  {text}    <- {}", proj::err_key(&e)); }
+                }
+            });
+            println!("accepted {ok} rejected {bad}");
+        }
         ("replay", "pipeline") => pipeline::replay_schedules(),
+        ("record", "C02") | ("record", "C06") | ("record", "C07") | ("record", "C08") | ("record", "C14") =>
+            laws::record(id, &args[3], &args[4], args.get(5).and_then(|s| s.parse().ok()).unwrap_or(5)),
         ("record", "pipeline") => pipeline::record(&args[3], args.get(4).and_then(|s| s.parse().ok()).unwrap_or(100), util::env_u64("VERIF_SEED", 1)),
         _ => { eprintln!("usage: asca-conform tables <dir> | replay <id> | record <id> <out>"); std::process::exit(2); }
     }
